@@ -1,2 +1,3 @@
+@trainexec.setter
 def spec(self, value):
     self.__call_train = value
